@@ -404,12 +404,38 @@ def prune_known_variant_switches(cj, adts):
                 return (rv["name"], names.index(rv["variant"]), len(names))
         return None
 
+    def const_of(l, depth=0):
+        """the constant a local holds: assigned exactly once, from a constant or (transitively) from such a local"""
+        if depth > 8 or l in borrowed or 1 <= l <= argc:
+            return None
+        ds = defs.get(l, [])
+        if len(ds) != 1 or ds[0] is None:
+            return None
+        rv = ds[0]
+        if rv["k"] == "use" and rv["op"].get("k") == "const" and rv["op"].get("int") is not None and rv["op"].get("ty") == "bool":
+            return str(rv["op"]["int"])
+        if rv["k"] == "use" and rv["op"].get("k") in ("copy", "move") and not rv["op"]["pl"].get("p"):
+            return const_of(rv["op"]["pl"]["l"], depth + 1)
+        return None
+
     n = 0
     for bl in blocks:
         t = bl["t"]
         if t["k"] != "switch" or t["d"].get("k") not in ("copy", "move") or t["d"]["pl"].get("p"):
             continue
         dl = t["d"]["pl"]["l"]
+        cv = const_of(dl)
+        if cv is not None and bl.get("from"):
+            # `helper(x, true)`: the helper's `if flag { .. }` on a parameter the caller passes as a constant
+            target = None
+            for (v, tb) in t["vals"]:
+                if str(v) == cv:
+                    target = tb
+            if target is None:
+                target = t["else"]
+            bl["t"] = {"k": "goto", "t": target, "ln": t.get("ln"), "pruned": "constant %s" % cv}
+            n += 1
+            continue
         dd = [st for st in bl["s"] if st["k"] == "assign" and not st["pl"].get("p") and st["pl"]["l"] == dl]
         if len(dd) != 1 or dd[0]["rv"]["k"] != "discr" or dd[0]["rv"]["pl"].get("p") or len(defs.get(dl, [])) != 1:
             continue
